@@ -14,7 +14,7 @@ FUNCTIONS = [
     "batchie.distance_calculation.ChunkedDistanceMatrix.add_value / to_dense",
 ]
 BOUNDS = {
-    "quick": "n_thetas 3 with plates of sizes (1,2) and 4 with sizes (2,1,3) and a single plate; all means real, variances > 0, distances >= 0 symmetric; three triple orders; scorer max_chunk in 1..P+1 and two plate orders (plate sizes (1,2), (2,1,3) and (3,2,3,1): equal padded shapes in consecutive sub-groups); all 6 / 3 sampled relabellings of the posterior samples",
+    "quick": "n_thetas 3 with plates of sizes (1,2) and 4 with sizes (2,1,3) and a single plate; all means real, variances > 0, distances >= 0 symmetric; three triple orders; scorer max_chunk in 1..P+1 and two plate orders (plate sizes (1,2), (2,1,3) and (3,2,3,1): equal padded shapes in consecutive sub-groups); all 6 / 3 sampled relabellings of the posterior samples; scorer on real Screen views (whole plates keyed by plate id, and candidates combined with a batch plate), distance pairs stored in row order, reversed or rotated",
     "thorough": "additionally n_thetas 5 with sizes (1,2), (2,3,1,4), (3,3,3); 6 with (1,2), (2,3); 7 with (2,1); 4 with five plates (5,1,4,2,3); scorer with five plates and every max_chunk 1..6; all 24 relabellings for n=4, every tenth of the 120 for n=5",
 }
 ASSUMPTIONS = [
